@@ -1,0 +1,86 @@
+//go:build verif
+
+// Hooks for the verification harness in /verif (C10). Compiled only with `-tags verif`;
+// thin exported wrappers around unexported identifiers, no behaviour of their own.
+package build
+
+import (
+	"context"
+	"os"
+
+	"chainguard.dev/apko/pkg/apk/apk"
+	apkfs "chainguard.dev/apko/pkg/apk/fs"
+
+	v1 "github.com/google/go-containerregistry/pkg/v1"
+)
+
+// VerifGroupByOriginAndSize calls groupByOriginAndSize and returns the packages of each group in order.
+func VerifGroupByOriginAndSize(pkgs []*apk.Package, budget int) ([][]*apk.Package, error) {
+	groups, err := groupByOriginAndSize(pkgs, budget)
+	if err != nil {
+		return nil, err
+	}
+	out := make([][]*apk.Package, len(groups))
+	for i, g := range groups {
+		out[i] = g.pkgs
+	}
+	return out, nil
+}
+
+// VerifSplitLayers calls splitLayers with the given groups (in order).
+func VerifSplitLayers(ctx context.Context, fsys apkfs.FullFS, groups [][]*apk.Package, tmpdir string) ([]v1.Layer, error) {
+	gs := make([]*group, len(groups))
+	for i, pkgs := range groups {
+		gs[i] = &group{pkgs: pkgs}
+	}
+	return splitLayers(ctx, fsys, gs, tmpdir)
+}
+
+// VerifLayersOfFS is the tail of buildLayers: groupByOriginAndSize followed by splitLayers.
+func VerifLayersOfFS(ctx context.Context, fsys apkfs.FullFS, pkgs []*apk.Package, budget int, tmpdir string) ([]v1.Layer, error) {
+	groups, err := groupByOriginAndSize(pkgs, budget)
+	if err != nil {
+		return nil, err
+	}
+	return splitLayers(ctx, fsys, groups, tmpdir)
+}
+
+// VerifSingleLayerOfFS is the tail of ImageLayoutToLayer: newLayerWriter, writeTar, finalize.
+func VerifSingleLayerOfFS(ctx context.Context, fsys apkfs.FullFS, tmpdir string) (v1.Layer, error) {
+	f, err := os.CreateTemp(tmpdir, "single-*.tar.gz")
+	if err != nil {
+		return nil, err
+	}
+	defer f.Close()
+	lw := newLayerWriter(f)
+	if err := writeTar(ctx, lw.w, fsys); err != nil {
+		return nil, err
+	}
+	return lw.finalize()
+}
+
+// VerifWalkEntry is what walkFS yields, flattened.
+type VerifWalkEntry struct {
+	Path    string
+	IsDir   bool
+	Owner   string // "" when no package owns the entry
+	ModTime int64
+}
+
+// VerifWalkFS runs walkFS and reports path, type, owner and ModTime of every entry.
+func VerifWalkFS(ctx context.Context, fsys apkfs.FullFS) ([]VerifWalkEntry, error) {
+	var out []VerifWalkEntry
+	for f, err := range walkFS(ctx, fsys) {
+		if err != nil {
+			return nil, err
+		}
+		e := VerifWalkEntry{Path: f.path, IsDir: f.header.Typeflag == '5', ModTime: f.header.ModTime.Unix()}
+		if pkger, ok := f.info.(interface{ Package() *apk.Package }); ok {
+			if pkg := pkger.Package(); pkg != nil {
+				e.Owner = pkg.Name
+			}
+		}
+		out = append(out, e)
+	}
+	return out, nil
+}
